@@ -11,7 +11,7 @@ DOCS = {"quick": 3, "thorough": 12}
 def trace_cfg(run):
     cfg = run.path("Trace_C17.cfg")
     known = ", ".join('"%s"' % d for d in sorted(run.known))
-    open(cfg, "w").write(f"SPECIFICATION Spec\nCONSTANTS\n  MaxDoc = 0\n  KnownDevs = {{{known}}}\nPOSTCONDITION Accepted\nCHECK_DEADLOCK FALSE\n")
+    open(cfg, "w").write(f"SPECIFICATION Spec\nCONSTANTS\n  MaxDoc = 0\n  OffsetUnit = \"bytes\"\n  KnownDevs = {{{known}}}\nPOSTCONDITION Accepted\nCHECK_DEADLOCK FALSE\n")
     return cfg
 
 
@@ -30,7 +30,9 @@ def check(tier):
     run = Run("C17", tier)
     res = core.tlc("mc/MC_C17.tla", "mc/MC_C17.cfg", workers=8, coverage=True, timeout=1800, xmx="8g")
     core.check_coverage(res)
-    run.add_tlc(res, "ErrorPos: line = 1 + #LF before offset for every document up to 6 symbols over {x, LF, CR} and every slicing; corruption plans")
+    run.add_tlc(res, "ErrorPos: offset = bytes consumed, line = 1 + #LF before offset for every document up to 6 symbols over {x, LF, CR, two-byte character} and every slicing; corruption plans")
+    neg = core.tlc("mc/MC_C17.tla", "mc/MC_C17_chars.cfg", workers=4, expect_violation=True, timeout=600)
+    run.cov["offset_counted_in_characters_refuted"] = neg.violated
     plans = res.printed("CASE")
     sets = c02.generate(run, tier, **SIM[tier])
     events = drive_and_validate(run, plans, sets, DOCS[tier], shards=4 if tier == "quick" else 16)
